@@ -28,6 +28,7 @@ var RepoDir = func() string {
 	}
 	return "/repo"
 }()
+
 const ModPath = "github.com/sarchlab/mgpusim/v4"
 
 // Finding is one reported construct. Key() never contains a line number.
@@ -61,18 +62,18 @@ type Ctx struct {
 	Tier  string
 	Start time.Time
 
-	Fset *token.FileSet
-	Pkgs []*packages.Package
+	Fset   *token.FileSet
+	Pkgs   []*packages.Package
 	byPath map[string]*packages.Package
 
 	Prog    *ssa.Program
 	SSAPkgs map[string]*ssa.Package
 
-	Findings []Finding
-	Stats    map[string]*RuleStat
-	order    []string
-	Notes    []string
-	Assumptions []string
+	Findings      []Finding
+	Stats         map[string]*RuleStat
+	order         []string
+	Notes         []string
+	Assumptions   []string
 	funcsAnalysed map[string]bool
 }
 
@@ -479,21 +480,21 @@ func (c *Ctx) Finish(verifDir string, meta Meta) int {
 		"seed":        seed,
 		"level":       meta.Level,
 		"coverage": map[string]any{
-			"explanation":         meta.Explanation,
-			"not_decided":         meta.NotDecided,
-			"obligations":         obl,
-			"discharged":          dis,
-			"rule_instances":      inst,
-			"rule":                "one obligation per (rule, construct) instance found in /repo's current source (call site, loop, table row, function, path query); obligations are decided, never sampled",
-			"rules":               rules,
-			"samples":             samples,
-			"packages_loaded":     pk,
-			"functions_analysed":  len(fa),
-			"functions_sample":    fnSample,
-			"known_findings":      len(kn),
-			"exhaustive":          true,
-			"checker_cmd":         fmt.Sprintf("./check %s %s", c.Prop, c.Tier),
-			"notes":               c.Notes,
+			"explanation":        meta.Explanation,
+			"not_decided":        meta.NotDecided,
+			"obligations":        obl,
+			"discharged":         dis,
+			"rule_instances":     inst,
+			"rule":               "one obligation per (rule, construct) instance found in /repo's current source (call site, loop, table row, function, path query); obligations are decided, never sampled",
+			"rules":              rules,
+			"samples":            samples,
+			"packages_loaded":    pk,
+			"functions_analysed": len(fa),
+			"functions_sample":   fnSample,
+			"known_findings":     len(kn),
+			"exhaustive":         true,
+			"checker_cmd":        fmt.Sprintf("./check %s %s", c.Prop, c.Tier),
+			"notes":              c.Notes,
 		},
 		"assumptions": append(append([]string{}, meta.Assumptions...), c.Assumptions...),
 		"wall_s":      time.Since(c.Start).Seconds(),
